@@ -26,6 +26,10 @@ PANICKY_STD = {
     "core::num::<impl u32>::pow": None, "core::num::<impl u64>::pow": None,
     "std::thread::JoinHandle::join": None,
     "core::char::from_digit": "char::from_digit", "core::char::methods::<impl char>::to_digit": None,
+    "char::encode_utf8": "char::encode_utf8", "char::encode_utf16": "char::encode_utf16", "char::from_digit": "char::from_digit",
+    "core::cmp::Ord::clamp": "clamp", "f64::clamp": "clamp", "f32::clamp": "clamp",
+    "[T]::rotate_left": "rotate", "[T]::rotate_right": "rotate", "[T]::select_nth_unstable": "select_nth",
+    "core::time::Duration::from_secs_f64": "Duration::from_secs_f64", "core::time::Duration::from_secs_f32": "Duration::from_secs_f32",
 }
 PANIC_MACROS = ("panic", "unreachable", "todo", "unimplemented", "assert", "assert_eq", "assert_ne", "debug_assert", "debug_assert_eq", "debug_assert_ne")
 INT_TYPES = {"u8", "u16", "u32", "u64", "u128", "usize", "i8", "i16", "i32", "i64", "i128", "isize"}
@@ -445,6 +449,21 @@ def auto_discharge(s):
         for f in s.facts:
             if f[0] == "cmp" and ((f[1] == rp and f[3] == "0" and f[2] in ("!=", ">")) or (f[3] == rp and f[1] == "0" and f[2] in ("!=", "<"))):
                 return "divisor %s is non-zero on this path" % rp
+        return None
+    if s.kind == "std" and n.get("k") == "mcall" and s.desc.startswith(("char::encode_utf8", "char::encode_utf16")) and n.get("a"):
+        need = 4 if "utf8" in s.desc else 2
+        al_ = array_len((ir.strip(n["a"][0]).get("t") or "").lstrip("&").replace("mut ", "")) or array_len((ir.strip(n["a"][0]).get("ta") or "").lstrip("&").replace("mut ", ""))
+        inner = ir.strip(n["a"][0])
+        while al_ is None and inner is not None and inner.get("k") in ("ref", "un"):
+            inner = ir.strip(inner["e"])
+            al_ = array_len((inner or {}).get("t") or "")
+        if al_ is not None and al_ >= need:
+            return "scratch buffer of %d units holds every character" % al_
+        return None
+    if s.kind == "std" and n.get("k") == "mcall" and s.desc.startswith("clamp") and len(n.get("a", ())) == 2:
+        lo, hi = ir.const_eval(n["a"][0], {}), ir.const_eval(n["a"][1], {})
+        if lo is not None and hi is not None and lo <= hi:
+            return "constant bounds %s <= %s" % (lo, hi)
         return None
     if s.kind == "std" and n.get("k") == "mcall" and s.desc.startswith(("Vec::remove", "Vec::swap_remove")) and n.get("a"):
         iv = ir.const_eval(n["a"][0], {})
